@@ -1,1 +1,1 @@
-
+import Proofs.C11
